@@ -6,6 +6,40 @@
 -/
 import EnvVerif.Model.Cbor
 namespace EnvVerif
+
+/-! ### big-endian bytes -/
+
+theorem beNat_append_single (b : Bytes) (x : UInt8) : beNat (b ++ [x]) = beNat b * 256 + x.toNat := by
+  simp [beNat, List.foldl_append]
+
+theorem beBytes_length : ∀ (len n : Nat), (beBytes len n).length = len
+  | 0, _ => rfl
+  | len + 1, n => by simp [beBytes, beBytes_length len]
+
+theorem beNat_beBytes : ∀ (len n : Nat), beNat (beBytes len n) = n % 256 ^ len
+  | 0, n => by simp [beBytes, beNat, Nat.mod_one]
+  | len + 1, n => by
+    rw [beBytes, beNat_append_single, beNat_beBytes len]
+    have h1 : (UInt8.ofNat (n % 256)).toNat = n % 256 := by
+      simp [UInt8.toNat_ofNat']
+    rw [h1, Nat.pow_succ, Nat.mul_comm (256 ^ len) 256, Nat.mod_mul]
+    omega
+
+theorem beBytes_beNat : ∀ (len : Nat) (b : Bytes), b.length = len → beBytes len (beNat b) = b
+  | 0, b, hl => by
+    have : b = [] := List.eq_nil_of_length_eq_zero hl
+    subst this; rfl
+  | len + 1, b, hl => by
+    have hne : b ≠ [] := by intro h0; subst h0; simp at hl
+    have hb : b = b.dropLast ++ [b.getLast hne] := (List.dropLast_concat_getLast hne).symm
+    have hl' : b.dropLast.length = len := by simp [List.length_dropLast, hl]
+    rw [hb, beBytes, beNat_append_single]
+    have hx : (b.getLast hne).toNat < 256 := UInt8.toNat_lt _
+    have h1 : (beNat b.dropLast * 256 + (b.getLast hne).toNat) / 256 = beNat b.dropLast := by omega
+    have h2 : (beNat b.dropLast * 256 + (b.getLast hne).toNat) % 256 = (b.getLast hne).toNat := by omega
+    rw [h1, h2, beBytes_beNat len _ hl']
+    simp
+
 namespace Cbor
 
 /-- the encoded keys of a map, in the order stored -/
@@ -41,9 +75,416 @@ end Cbor
 
 /-- the two laws of the dCBOR codec: a valid tree decodes from its encoding, and whatever
 decodes is valid and re-encodes to the bytes it was read from (so the encoding of a tree
-is unique and the decoder accepts nothing else). -/
+is unique and the decoder accepts nothing else).
+
+WARNING: the second law is *false* for the model codec, which mirrors `dcbor` 0.17.1
+faithfully: `fa 4f 00 00 01` (the f32 2147483904.0) is accepted and read as the integer
+2147483904, whose encoding is `1a 80 00 01 00` (`not_codecLaws` in Props/C06.lean; confirmed
+on the Rust crate).  The property theorems therefore do not take `CodecLaws` but its two
+halves separately: `DecEncLaw` (proved for the model codec below: `Cbor.decEncLaw`, so C05
+needs no codec hypothesis at all) and the pointwise `EncDecAt b` (a hypothesis in C06). -/
 structure CodecLaws : Prop where
   dec_enc : ∀ c, Cbor.Valid c → Cbor.dec c.enc = .ok c
   enc_dec : ∀ b c, Cbor.dec b = .ok c → c.enc = b ∧ Cbor.Valid c
+
+/-- the first law alone: a valid tree decodes from its encoding -/
+def DecEncLaw : Prop := ∀ c, Cbor.Valid c → Cbor.dec c.enc = .ok c
+
+/-- the second law at one input: if `b` decodes, the tree is valid and re-encodes to `b` -/
+def EncDecAt (b : Bytes) : Prop := ∀ c, Cbor.dec b = .ok c → c.enc = b ∧ Cbor.Valid c
+
+theorem CodecLaws.decEncLaw (L : CodecLaws) : DecEncLaw := L.dec_enc
+theorem CodecLaws.encDecAt (L : CodecLaws) (b : Bytes) : EncDecAt b := L.enc_dec b
+theorem CodecLaws.of_halves (h1 : DecEncLaw) (h2 : ∀ b, EncDecAt b) : CodecLaws := ⟨h1, h2⟩
+
+/-! ### the first law holds for the model codec -/
+
+namespace Cbor
+theorem headByte_toNat (mt a : Nat) (hmt : mt < 8) (ha : a < 32) :
+    (UInt8.ofNat (mt * 32) + UInt8.ofNat a).toNat = mt * 32 + a := by
+  simp only [UInt8.toNat_add, UInt8.toNat_ofNat']
+  omega
+
+theorem headByte_lit (mt : Nat) (hmt : mt < 8) (a : Nat) (ha : a < 32) :
+    (UInt8.ofNat (mt * 32) + (OfNat.ofNat a : UInt8)).toNat = mt * 32 + a := by
+  simp only [UInt8.toNat_add, UInt8.toNat_ofNat', UInt8.toNat_ofNat]
+  omega
+
+/-- the additional-information value of the shortest head for argument `n` -/
+def aiOf (n : Nat) : Nat :=
+  if n < 24 then n else if n < 256 then 24 else if n < 65536 then 25 else if n < 4294967296 then 26 else 27
+
+theorem decHead_head (mt n : Nat) (rest : Bytes) (hmt : mt < 8) (h7 : mt = 7 → n < 24)
+    (hn : n < 2 ^ 64) : decHead (head mt n ++ rest) = .ok (mt, aiOf n, n, rest) := by
+  unfold head aiOf
+  dsimp only
+  split
+  · rename_i h1
+    have hb := headByte_toNat mt n hmt (by omega)
+    simp only [List.cons_append, List.nil_append, decHead, hb]
+    have e1 : (mt * 32 + n) / 32 = mt := by omega
+    have e2 : (mt * 32 + n) % 32 = n := by omega
+    simp only [e1, e2, h1, if_true]
+  · rename_i h1
+    have hf : (mt == 7) = false := by
+      cases hm : mt == 7 with
+      | false => rfl
+      | true => exact absurd (h7 (by simpa using hm)) h1
+    split
+    · rename_i h2
+      have hb := headByte_lit mt hmt 24 (by omega)
+      simp only [List.cons_append, List.nil_append, decHead, hb]
+      have e1 : (mt * 32 + 24) / 32 = mt := by omega
+      have e2 : (mt * 32 + 24) % 32 = 24 := by omega
+      have e3 : (UInt8.ofNat n).toNat = n := by simp only [UInt8.toNat_ofNat']; omega
+      simp only [e1, e2, e3, h1, if_false, Nat.lt_irrefl, beq_self_eq_true, if_true]
+    · rename_i h2
+      split
+      · rename_i h3
+        have hb := headByte_lit mt hmt 25 (by omega)
+        simp only [List.cons_append, decHead, hb]
+        have e1 : (mt * 32 + 25) / 32 = mt := by omega
+        have e2 : (mt * 32 + 25) % 32 = 25 := by omega
+        have e3 : n % 256 ^ 2 = n := Nat.mod_eq_of_lt (by omega)
+        have e4 : ¬ n < 256 := h2
+        simp [e1, e2, beBytes_length, beNat_beBytes, e3, e4, hf]
+      · rename_i h3
+        split
+        · rename_i h4
+          have hb := headByte_lit mt hmt 26 (by omega)
+          simp only [List.cons_append, decHead, hb]
+          have e1 : (mt * 32 + 26) / 32 = mt := by omega
+          have e2 : (mt * 32 + 26) % 32 = 26 := by omega
+          have e3 : n % 256 ^ 4 = n := Nat.mod_eq_of_lt (by omega)
+          have e4 : ¬ n < 65536 := h3
+          simp [e1, e2, beBytes_length, beNat_beBytes, e3, e4, hf]
+        · rename_i h4
+          have hb := headByte_lit mt hmt 27 (by omega)
+          simp only [List.cons_append, decHead, hb]
+          have e1 : (mt * 32 + 27) / 32 = mt := by omega
+          have e2 : (mt * 32 + 27) % 32 = 27 := by omega
+          have e3 : n % 256 ^ 8 = n := Nat.mod_eq_of_lt (by omega)
+          have e4 : ¬ n < 4294967296 := h4
+          simp [e1, e2, beBytes_length, beNat_beBytes, e3, e4, hf]
+
+
+theorem head_ne_nil (mt n : Nat) : head mt n ≠ [] := by
+  unfold head
+  dsimp only
+  repeat' split
+  all_goals simp
+
+theorem head_length_pos (mt n : Nat) : 0 < (head mt n).length :=
+  List.length_pos_iff.mpr (head_ne_nil mt n)
+
+theorem dec_nil : dec [] = .error .underrun := by rfl
+
+theorem enc_length_pos : (c : Cbor) → c.Valid → 0 < c.enc.length
+  | .uint n, _ => by simp only [enc]; exact head_length_pos _ _
+  | .nint n, _ => by simp only [enc]; exact head_length_pos _ _
+  | .bytes b, _ => by simp only [enc, List.length_append]; have := head_length_pos 2 b.length; omega
+  | .text b, _ => by simp only [enc, List.length_append]; have := head_length_pos 3 b.length; omega
+  | .array xs, _ => by simp only [enc, List.length_append]; have := head_length_pos 4 xs.length; omega
+  | .map kvs, _ => by simp only [enc, List.length_append]; have := head_length_pos 5 kvs.length; omega
+  | .tagged t x, _ => by simp only [enc, List.length_append]; have := head_length_pos 6 t; omega
+  | .simple v, _ => by simp only [enc]; exact head_length_pos _ _
+  | .float bits, hv => by
+    simp only [Valid] at hv
+    simp only [enc]
+    cases he : encFloat bits with
+    | nil => rw [he, dec_nil] at hv; cases hv
+    | cons _ _ => simp
+
+theorem decItem_uint (f n : Nat) (rest : Bytes) (hn : n < 2 ^ 64) :
+    decItem (f + 1) (head 0 n ++ rest) = .ok (.uint n, rest) := by
+  simp only [decItem, decHead_head 0 n rest (by omega) (by omega) hn]
+  simp
+
+
+theorem decHead_append {data : Bytes} {mt ai v : Nat} {r : Bytes}
+    (h : decHead data = .ok (mt, ai, v, r)) (rest : Bytes) :
+    decHead (data ++ rest) = .ok (mt, ai, v, r ++ rest) := by
+  cases data with
+  | nil => simp [decHead] at h
+  | cons hb tl =>
+    simp only [List.cons_append, decHead] at h ⊢
+    split at h
+    · rename_i h1
+      rw [if_pos h1]
+      simp only [Except.ok.injEq, Prod.mk.injEq] at h
+      obtain ⟨rfl, rfl, rfl, rfl⟩ := h
+      rfl
+    · rename_i h1
+      rw [if_neg h1]
+      split at h
+      · rename_i h2
+        rw [if_pos h2]
+        cases tl with
+        | nil => simp at h
+        | cons b r' =>
+          simp only [List.cons_append] at h ⊢
+          split at h
+          · cases h
+          · rename_i h3
+            rw [if_neg h3]
+            simp only [Except.ok.injEq, Prod.mk.injEq] at h
+            obtain ⟨rfl, rfl, rfl, rfl⟩ := h
+            rfl
+      · rename_i h2
+        rw [if_neg h2]
+        split at h
+        · rename_i h3
+          rw [if_pos h3]
+          split at h
+          · cases h
+          · rename_i h4
+            have h4' : ¬ (tl ++ rest).length < 2 := by simp only [List.length_append]; omega
+            rw [if_neg h4']
+            have ht : (tl ++ rest).take 2 = tl.take 2 := List.take_append_of_le_length (by omega)
+            have hd : (tl ++ rest).drop 2 = tl.drop 2 ++ rest := List.drop_append_of_le_length (by omega)
+            rw [ht, hd]
+            split at h
+            · cases h
+            · rename_i h5
+              rw [if_neg h5]
+              simp only [Except.ok.injEq, Prod.mk.injEq] at h
+              obtain ⟨rfl, rfl, rfl, rfl⟩ := h
+              rfl
+        · rename_i h3
+          rw [if_neg h3]
+          split at h
+          · rename_i h3'
+            rw [if_pos h3']
+            split at h
+            · cases h
+            · rename_i h4
+              have h4' : ¬ (tl ++ rest).length < 4 := by simp only [List.length_append]; omega
+              rw [if_neg h4']
+              have ht : (tl ++ rest).take 4 = tl.take 4 := List.take_append_of_le_length (by omega)
+              have hd : (tl ++ rest).drop 4 = tl.drop 4 ++ rest := List.drop_append_of_le_length (by omega)
+              rw [ht, hd]
+              split at h
+              · cases h
+              · rename_i h5
+                rw [if_neg h5]
+                simp only [Except.ok.injEq, Prod.mk.injEq] at h
+                obtain ⟨rfl, rfl, rfl, rfl⟩ := h
+                rfl
+          · rename_i h3'
+            rw [if_neg h3']
+            split at h
+            · rename_i h3''
+              rw [if_pos h3'']
+              split at h
+              · cases h
+              · rename_i h4
+                have h4' : ¬ (tl ++ rest).length < 8 := by simp only [List.length_append]; omega
+                rw [if_neg h4']
+                have ht : (tl ++ rest).take 8 = tl.take 8 := List.take_append_of_le_length (by omega)
+                have hd : (tl ++ rest).drop 8 = tl.drop 8 ++ rest := List.drop_append_of_le_length (by omega)
+                rw [ht, hd]
+                split at h
+                · cases h
+                · rename_i h5
+                  rw [if_neg h5]
+                  simp only [Except.ok.injEq, Prod.mk.injEq] at h
+                  obtain ⟨rfl, rfl, rfl, rfl⟩ := h
+                  rfl
+            · cases h
+
+
+theorem decItem_float_append {f : Nat} {data : Bytes} {bits : Nat} {r : Bytes}
+    (h : decItem (f + 1) data = .ok (.float bits, r)) (f' : Nat) (rest : Bytes) :
+    decItem (f' + 1) (data ++ rest) = .ok (.float bits, r ++ rest) := by
+  simp only [decItem] at h ⊢
+  cases hh : decHead data with
+  | error e => rw [hh] at h; cases h
+  | ok q =>
+    obtain ⟨mt, ai, v, r0⟩ := q
+    rw [hh] at h
+    rw [decHead_append hh rest]
+    dsimp only at h ⊢
+    split at h
+    · cases h
+    · rename_i m0
+      rw [if_neg m0]
+      split at h
+      · cases h
+      · rename_i m1
+        rw [if_neg m1]
+        split at h
+        · split at h <;> cases h
+        · rename_i m2
+          rw [if_neg m2]
+          split at h
+          · repeat' split at h
+            all_goals cases h
+          · rename_i m3
+            rw [if_neg m3]
+            split at h
+            · split at h <;> cases h
+            · rename_i m4
+              rw [if_neg m4]
+              split at h
+              · split at h <;> cases h
+              · rename_i m5
+                rw [if_neg m5]
+                split at h
+                · split at h <;> cases h
+                · rename_i m6
+                  rw [if_neg m6]
+                  split at h
+                  · rename_i hfl
+                    rw [if_pos hfl]
+                    cases hd : decFloat ai v with
+                    | error e => rw [hd] at h; cases h
+                    | ok c =>
+                      rw [hd] at h
+                      simp only [Except.ok.injEq, Prod.mk.injEq] at h
+                      obtain ⟨rfl, rfl⟩ := h
+                      rfl
+                  · split at h <;> cases h
+
+
+theorem float_valid_decItem {bits : Nat} (hv : (Cbor.float bits).Valid) (f : Nat) (rest : Bytes) :
+    decItem (f + 1) (encFloat bits ++ rest) = .ok (.float bits, rest) := by
+  simp only [Valid, dec] at hv
+  cases hd : decItem (2 * (encFloat bits).length + 2) (encFloat bits) with
+  | error e => rw [hd] at hv; cases hv
+  | ok q =>
+    obtain ⟨c, r⟩ := q
+    rw [hd] at hv
+    dsimp only at hv
+    split at hv
+    · rename_i hr
+      injection hv with hv
+      subst hv
+      have hr' : r = [] := by simpa using hr
+      subst hr'
+      have := decItem_float_append (f := 2 * (encFloat bits).length + 1) hd f rest
+      simpa using this
+    · cases hv
+
+mutual
+theorem decItem_enc : (c : Cbor) → c.Valid → ∀ (fuel : Nat) (rest : Bytes),
+    2 * c.enc.length ≤ fuel + 1 → decItem fuel (c.enc ++ rest) = .ok (c, rest)
+  | .uint n, hv, fuel, rest, hf => by
+    have hp := enc_length_pos _ hv
+    obtain ⟨f, rfl⟩ : ∃ f, fuel = f + 1 := ⟨fuel - 1, by omega⟩
+    simp only [Valid] at hv
+    simp only [enc, decItem, decHead_head 0 n rest (by omega) (by omega) hv]
+    simp
+  | .nint n, hv, fuel, rest, hf => by
+    have hp := enc_length_pos _ hv
+    obtain ⟨f, rfl⟩ : ∃ f, fuel = f + 1 := ⟨fuel - 1, by omega⟩
+    simp only [Valid] at hv
+    simp only [enc, decItem, decHead_head 1 n rest (by omega) (by omega) hv]
+    simp
+  | .bytes b, hv, fuel, rest, hf => by
+    have hp := enc_length_pos _ hv
+    obtain ⟨f, rfl⟩ : ∃ f, fuel = f + 1 := ⟨fuel - 1, by omega⟩
+    simp only [Valid] at hv
+    simp only [enc, List.append_assoc, decItem, decHead_head 2 b.length (b ++ rest) (by omega) (by omega) hv]
+    simp
+  | .text b, hv, fuel, rest, hf => by
+    have hp := enc_length_pos _ hv
+    obtain ⟨f, rfl⟩ : ∃ f, fuel = f + 1 := ⟨fuel - 1, by omega⟩
+    simp only [Valid] at hv
+    simp only [enc, List.append_assoc, decItem, decHead_head 3 b.length (b ++ rest) (by omega) (by omega) hv.1]
+    simp [hv.2]
+  | .array xs, hv, fuel, rest, hf => by
+    have hp := enc_length_pos _ hv
+    obtain ⟨f, rfl⟩ : ∃ f, fuel = f + 1 := ⟨fuel - 1, by omega⟩
+    simp only [Valid] at hv
+    have hl : 2 * (encList xs).length ≤ f := by
+      simp only [enc, List.length_append] at hf
+      have := head_length_pos 4 xs.length
+      omega
+    have ih := decItems_enc xs hv.2 f rest hl
+    simp only [enc, List.append_assoc, decItem,
+      decHead_head 4 xs.length (encList xs ++ rest) (by omega) (by omega) hv.1]
+    simp [ih]
+  | .map kvs, hv, fuel, rest, hf => by
+    have hp := enc_length_pos _ hv
+    obtain ⟨f, rfl⟩ : ∃ f, fuel = f + 1 := ⟨fuel - 1, by omega⟩
+    simp only [Valid] at hv
+    have hl : 2 * (encPairs kvs).length ≤ f := by
+      simp only [enc, List.length_append] at hf
+      have := head_length_pos 5 kvs.length
+      omega
+    have ih := decPairs_enc kvs hv.2.1 hv.2.2 f rest none (by intro p hp; cases hp) hl
+    simp only [enc, List.append_assoc, decItem,
+      decHead_head 5 kvs.length (encPairs kvs ++ rest) (by omega) (by omega) hv.1]
+    simp [ih]
+  | .tagged t x, hv, fuel, rest, hf => by
+    have hp := enc_length_pos _ hv
+    obtain ⟨f, rfl⟩ : ∃ f, fuel = f + 1 := ⟨fuel - 1, by omega⟩
+    simp only [Valid] at hv
+    have hl : 2 * x.enc.length ≤ f + 1 := by
+      simp only [enc, List.length_append] at hf
+      have := head_length_pos 6 t
+      omega
+    have ih := decItem_enc x hv.2 f rest hl
+    simp only [enc, List.append_assoc, decItem,
+      decHead_head 6 t (x.enc ++ rest) (by omega) (by omega) hv.1]
+    simp [ih]
+  | .simple v, hv, fuel, rest, hf => by
+    have hp := enc_length_pos _ hv
+    obtain ⟨f, rfl⟩ : ∃ f, fuel = f + 1 := ⟨fuel - 1, by omega⟩
+    simp only [Valid] at hv
+    simp only [enc, decItem, decHead_head 7 v rest (by omega) (by omega) (by omega)]
+    rcases hv with rfl | rfl | rfl <;> simp [aiOf]
+  | .float bits, hv, fuel, rest, hf => by
+    have hp := enc_length_pos _ hv
+    obtain ⟨f, rfl⟩ : ∃ f, fuel = f + 1 := ⟨fuel - 1, by omega⟩
+    simp only [enc]
+    exact float_valid_decItem hv f rest
+theorem decItems_enc : (xs : List Cbor) → ValidList xs → ∀ (fuel : Nat) (rest : Bytes),
+    2 * (encList xs).length ≤ fuel → decItems fuel xs.length (encList xs ++ rest) = .ok (xs, rest)
+  | [], _, fuel, rest, _ => by
+    cases fuel <;> simp [decItems, encList]
+  | x :: xs, hv, fuel, rest, hf => by
+    simp only [ValidList] at hv
+    have hp := enc_length_pos x hv.1
+    simp only [encList, List.length_append] at hf
+    obtain ⟨f, rfl⟩ : ∃ f, fuel = f + 1 := ⟨fuel - 1, by omega⟩
+    have ih1 := decItem_enc x hv.1 f (encList xs ++ rest) (by omega)
+    have ih2 := decItems_enc xs hv.2 f rest (by omega)
+    simp only [encList, List.length_cons, List.append_assoc, decItems, ih1, ih2]
+theorem decPairs_enc : (kvs : List (Cbor × Cbor)) → ValidPairs kvs → KeysAsc (keysEnc kvs) →
+    ∀ (fuel : Nat) (rest : Bytes) (prev : Option Bytes),
+    (∀ p, prev = some p → ∀ k ∈ keysEnc kvs, bytesLt p k = true) →
+    2 * (encPairs kvs).length ≤ fuel →
+    decPairs fuel kvs.length prev (encPairs kvs ++ rest) = .ok (kvs, rest)
+  | [], _, _, fuel, rest, prev, _, _ => by
+    cases fuel <;> simp [decPairs, encPairs]
+  | (k, v) :: kvs, hv, hk, fuel, rest, prev, hprev, hf => by
+    simp only [ValidPairs] at hv
+    have hp1 := enc_length_pos k hv.1
+    have hp2 := enc_length_pos v hv.2.1
+    simp only [encPairs, List.length_append] at hf
+    obtain ⟨f, rfl⟩ : ∃ f, fuel = f + 1 := ⟨fuel - 1, by omega⟩
+    simp only [KeysAsc, keysEnc, List.map_cons, List.pairwise_cons] at hk
+    have ih1 := decItem_enc k hv.1 f (v.enc ++ (encPairs kvs ++ rest)) (by omega)
+    have ih2 := decItem_enc v hv.2.1 f (encPairs kvs ++ rest) (by omega)
+    have ih3 := decPairs_enc kvs hv.2.2 hk.2 f rest (some k.enc)
+      (by intro p hp; injection hp with hp; subst hp; exact hk.1) (by omega)
+    cases prev with
+    | none =>
+      simp only [encPairs, List.length_cons, List.append_assoc, decPairs, ih1, ih2, ih3]
+      simp
+    | some p =>
+      have hlt : bytesLt p k.enc = true := hprev p rfl k.enc (by simp [keysEnc])
+      simp only [encPairs, List.length_cons, List.append_assoc, decPairs, ih1, ih2, ih3, hlt]
+      simp
+end
+
+theorem decEncLaw : DecEncLaw := by
+  intro c hv
+  have := decItem_enc c hv (2 * c.enc.length + 2) [] (by omega)
+  simp only [List.append_nil] at this
+  simp [dec, this]
+
+end Cbor
 
 end EnvVerif
